@@ -269,7 +269,7 @@ func position(sec int64) {
 func TestCheck(t *testing.T) {
 	r := mon.Start(t, "C04")
 	defer r.Finish()
-	r.Note("rule", "histories against one server factory each, in virtual time: (a) complete grid of hour offsets -3..+3 x clock positions {first second, middle, last second of the hour} for fresh hellos, each followed by a replay; (a2) the same offsets for connections accepted at xx:59:50 whose hello is presented 11, 20 or 29 s later, i.e. in the next hour (offsets relative to the hour at presentation); (b) the TTL scenario (hello stamped H+1 accepted in the first second of hour H, replayed 2h59m later while still inside its window); (c) PRNG histories of <=12 operations over {fresh(offset), replay(earlier hello), advance clock by one of {0,1s,59m,61m,2h,2h59m,3h1m}, k=2..16 simultaneous submissions of one hello}; every presentation is the byte-exact complete hello; lockstep comparison with the sequential set model. Non-trivial = a history with at least one acceptance and one rejection; distinct = distinct history trace.")
+	r.Note("rule", "histories against one server factory each, in virtual time: (a) complete grid of hour offsets -3..+3 x clock positions {first second, middle, last second of the hour} for fresh hellos, each followed by a replay; (a2) the same offsets for connections accepted at xx:59:50 whose hello is presented 11, 20 or 29 s later, i.e. in the next hour (offsets relative to the hour at presentation); (b) the TTL scenario (hello stamped H+1 accepted in the first second of hour H, replayed 2h59m later while still inside its window); (b2) the eldest remembered hello expires (t0+3h) while younger ones, accepted 61..179 min later, are replayed right behind that instant; (c) PRNG histories of <=12 operations over {fresh(offset), replay(earlier hello), advance clock by one of {0,1s,59m,61m,2h,2h59m,3h1m}, k=2..16 simultaneous submissions of one hello}; every presentation is the byte-exact complete hello; lockstep comparison with the sequential set model. Non-trivial = a history with at least one acceptance and one rejection; distinct = distinct history trace.")
 	dir := o4.StateDir("c04")
 
 	// (a) offsets x clock positions
@@ -336,6 +336,44 @@ func TestCheck(t *testing.T) {
 			}
 			r.Count("ttl_scenarios", 1)
 			r.Distinct("nontrivial", fmt.Sprint(w.trace))
+		})
+	}
+	// (b2) the eldest remembered handshake expires while younger ones must stay
+	// remembered: A at t0, V at t0+x (stamped for the next hour, so that it
+	// stays presentable), then just behind t0+3h — when A is forgotten — V is
+	// replayed, directly or after another (fresh) handshake has gone through
+	// the filter first
+	for xi, x := range []time.Duration{61 * time.Minute, 90 * time.Minute, 2 * time.Hour, 150 * time.Minute, 179 * time.Minute} {
+		xi, x := xi, x
+		r.Bubble(fmt.Sprintf("eldest-expires/%d", xi), func(c *mon.Case) {
+			for vi, eps := range []time.Duration{time.Second, time.Minute, 29 * time.Minute} {
+				for order := 0; order < 2; order++ {
+					w := newWorld(c, r, dir, r.Sub("eldest", xi, vi, order))
+					if w == nil {
+						return
+					}
+					position(int64(w.rng.IntN(3600)))
+					start := time.Now()
+					w.submit(w.fresh(0), "fresh")
+					time.Sleep(x)
+					v := w.fresh(1)
+					w.submit(v, "fresh")
+					v0 := w.fresh(0)
+					w.submit(v0, "fresh")
+					w.submit(v, "replay")
+					time.Sleep(3*time.Hour + eps - time.Since(start))
+					w.trace = append(w.trace, fmt.Sprintf("advance(to t0+3h+%v)", eps))
+					if order == 1 {
+						w.submit(w.fresh(0), "fresh")
+					}
+					w.submit(v, "replay-after-eldest-expired")
+					w.submit(v0, "replay-after-eldest-expired")
+					w.submit(w.fresh(-1), "fresh")
+					w.submit(v, "replay-after-eldest-expired")
+					r.Count("eldest_expiry_scenarios", 1)
+					r.Distinct("nontrivial", fmt.Sprint(w.trace))
+				}
+			}
 		})
 	}
 	// (d) real clock: parallel bursts (burst_test.go, needs the instrumented siphash copy)
